@@ -136,7 +136,9 @@ class EnqueueUnit(Unit):
         m.set(st, 'size', n1)
 
     def on_acquire(self, ex, st, lock, node):
-        pass
+        # everything the other roles did while this caller did not hold the lock -- other enqueuers included, so the ledger may have GROWN
+        # since whatever this caller observed before (an observation made without the lock says nothing once the lock is taken)
+        self.interfere(ex, st, self.ledger, node, waiting=True)
 
     def on_wait(self, ex, st, cond, notified, node):
         t = st.ghost.get('#wait_timeout')
@@ -152,6 +154,7 @@ class EnqueueUnit(Unit):
             st.assume(new == now + tt)
         st.ghost['clock'] = new
         st.ghost['waited_until'] = now + tt
+        ex.oblige(st, f'line {node.lineno}: [C06] a caller WITH back-pressure never waits for a slot: it is rejected at once (no wait on the condition on any path)', z3.Not(self.bp))
         ex.oblige(st, f'line {node.lineno}: a caller without back-pressure waits no longer than 0.99 * timeout in total (each wait ends by the original deadline)',
                   now + tt <= z3.If(st.ghost['t_entry'] + self.timeout * 0.99 >= now, st.ghost['t_entry'] + self.timeout * 0.99, now))
         self.interfere(ex, st, self.ledger, node, waiting=True)
@@ -521,6 +524,8 @@ class AGatherUnit(Unit):
     file = F
     qual = 'AsyncServer._gather_output'
     expected_exits = ('normal',)
+    coroutines_are_objects = True
+    inlined_defs = ('notify',)
     ignore_stmts = (r"fut\.data\['t2'\] = .*",)
     canaries = (('resolved with something else than its own outcome', 'loop.call_soon_threadsafe(fut.set_result, y)', 'loop.call_soon_threadsafe(fut.set_result, uid)', 'own outcome'),
                 ('exception scheduled as a result', 'loop.call_soon_threadsafe(fut.set_exception, y)', 'loop.call_soon_threadsafe(fut.set_result, y)', 'own outcome'),
@@ -533,7 +538,28 @@ class AGatherUnit(Unit):
         self.qout.init(st)
         self.ledger = SharedMap(ex, 'ledger').init(st, z3.Const('ledger0', z3.ArraySort(Val, Val)), z3.Int('n0'))
         self.notifs = SharedMap(ex, 'notifications').init(st)
-        self.me = Rec(ex, 'self', immutable=True).init(st, _q_out=self.qout, _uid_to_futures=self.ledger, _pipeline_notfull=Rec(ex, 'cond', immutable=True), _pipeline_notfull_notifications=self.notifs)
+        class CondModel(Obj):
+            """asyncio.Condition used only by the scheduled coroutine: `async with cond: cond.notify()` wakes one waiting enqueuer"""
+
+            def havoc(self_, e, s):
+                pass
+
+            def cm_enter(self_, e, s, node):
+                s = s.fork()
+                s.ghost['cond_held'] = True
+                return [('ok', s, self_)]
+
+            def cm_exit(self_, e, s, node, outcome):
+                s = s.fork()
+                s.ghost['cond_held'] = False
+                return [('ok', s, False)]
+
+            def m_notify(self_, e, s, a, k, n):
+                e.oblige(s, f'line {n.lineno}: the condition is notified while holding it', z3.BoolVal(bool(s.ghost.get('cond_held'))))
+                s = s.fork()
+                s.ghost['notified_this'] = s.ghost['notified_this'] + 1
+                return [('ok', s, NONE)]
+        self.me = Rec(ex, 'self', immutable=True).init(st, _q_out=self.qout, _uid_to_futures=self.ledger, _pipeline_notfull=CondModel(ex, 'cond'), _pipeline_notfull_notifications=self.notifs)
         st.env['self'] = self.me
         ex.globals['perf_counter'] = GhostClock()
         st.ghost['clock'] = z3.RealVal(0)
@@ -570,17 +596,25 @@ class AGatherUnit(Unit):
         st.env['loop'] = Rec(ex, 'loop', immutable=True, methods={'call_soon_threadsafe': Fn(call_soon, trusted='loop.call_soon_threadsafe never raises while the loop is open; the callback runs later on the loop, its exceptions go to the loop exception handler')})
 
         def run_coro(e, s, a, k, n):
-            s = s.fork()
-            e.oblige(s, f'line {n.lineno}: the coroutine scheduled is the slot notification, on the server\'s loop', z3.And(box(e, a[0]) == z3.Const('coroutine notify()', Val), z3.BoolVal(unbox_handle(e, a[1]) is st.env['loop'])))
-            s.ghost['notified_this'] = s.ghost['notified_this'] + 1
-            return [('ok', s, Rec(e, 'cf', immutable=True, methods={'add_done_callback': Nop()}))]
+            # the coroutine runs LATER on the loop: the caller may have cancelled its future meanwhile (the future model applies that interference at
+            # every access); an exception inside it ends it there and goes to the concurrent future nobody reads -- nothing propagates to this thread
+            from pyvc.core import CoroutineObj
+            co = unbox_handle(e, a[0])
+            e.oblige(s, f'line {n.lineno}: what is scheduled is a local coroutine, on the server\'s loop', z3.BoolVal(isinstance(co, CoroutineObj) and unbox_handle(e, a[1]) is st.env['loop']))
+            if not isinstance(co, CoroutineObj):
+                return [('ok', s, Rec(e, 'cf', immutable=True, methods={'add_done_callback': Nop()}))]
+            before = s.ghost['notified_this']
+            outs = []
+            for kind, s2, v in e.inline(s.fork(), co.clo, co.args, co.kwargs, n):
+                e.oblige(s2, f'line {n.lineno}: [C06/C07] the scheduled coroutine notifies the freed slot exactly once on EVERY path -- also when the caller has cancelled its future in the meantime '
+                             '(an exception inside the coroutine would end it before the notification: a waiting enqueuer would never be woken)',
+                         z3.And(z3.BoolVal(kind == 'ok'), s2.ghost['notified_this'] == before + 1))
+                s2 = s2.fork()
+                s2.ghost['notified_this'] = before + 1 if kind != 'ok' else s2.ghost['notified_this']
+                outs.append(('ok', s2, Rec(e, 'cf', immutable=True, methods={'add_done_callback': Nop()})))
+            return outs
         ex.globals['asyncio.run_coroutine_threadsafe'] = Fn(run_coro)
         return st
-
-    def on_call(self, ex, st, e, src):
-        if src == 'notify':
-            return [('ok', st, z3.Const('coroutine notify()', Val))]      # calling an async def only creates the coroutine
-        return None
 
     def getattr(self, ex, st, base, attr, node):
         if attr == 'exc':
